@@ -248,6 +248,8 @@ class FeatNormalizerList:
             normalizers (list[FeatNormalizer or None]):
             list of feature normalizers
         """
+        if slmode not in ["nst", "npa", "ns", "np"]:
+            raise ValueError("slmode must be nst, npa, ns, or np.")
         self.slmode = slmode
         self._normalizers = normalizers
         self.cutoff = cutoff
